@@ -37,7 +37,7 @@ def check(an, rep, tier):
             piv = d - 1 if k is None else k
             r = an.run('transformation.orthogonalize', 0, d, variant=v,
                        extra_key=('piv', k))
-            collect(rep, [r], S_RULES, wheres=wh)
+            collect(rep, [r], S_RULES + ['O-sign'], wheres=wh)
             for j, rv in enumerate(r.returns):
                 st, detail = tt_wellformed(rv, modes_from('Y.n')(r))
                 rep.add('S-ret', r.qualname, 'pivot %s at d=%d' % (k, d), st,
@@ -48,8 +48,13 @@ def check(an, rep, tier):
                 want = ['cols3'] * piv + [None] + ['rows3'] * (d - 1 - piv)
                 ok = all((s == w) if w else (s not in ('cols3', 'rows3'))
                          for s, w in zip(states, want))
+                known_bad = any(
+                    (w and s is not None and s != w) or
+                    (not w and s in ('cols3', 'rows3'))
+                    for s, w in zip(states, want))
                 rep.add('O-producer', r.qualname, 'core states for pivot %s '
-                        'at d=%d' % (k, d), 'ok' if ok else 'violation',
+                        'at d=%d' % (k, d), 'ok' if ok else
+                        ('violation' if known_bad else 'unknown'),
                         '' if ok else 'core states %s, expected %s (left of '
                         'the pivot orthonormal columns, right of it '
                         'orthonormal rows, the pivot carries the weights)'
